@@ -132,31 +132,7 @@ func init() {
 			// ---- recovery is a function of its arguments only: no package-level
 			// state that is written at run time is reachable from Recover*
 			r.Rule("C03.pure", "recovery reads no run-time-mutable package state (same inputs ⇒ same result, whatever was recovered before)", 2)
-			written := map[*ssa.Global]string{}
-			for _, f := range r.W.AllFuncs {
-				if f.Name() == "init" || strings.HasPrefix(f.Name(), "init#") {
-					continue
-				}
-				EachInstr(f, func(in ssa.Instruction) {
-					switch x := in.(type) {
-					case *ssa.Store:
-						if g, ok := addrRoot(x.Addr).(*ssa.Global); ok {
-							written[g] = FnName(f)
-						}
-					case *ssa.MapUpdate:
-						if g, ok := addrRoot(x.Map).(*ssa.Global); ok {
-							written[g] = FnName(f)
-						}
-					case ssa.CallInstruction:
-						// &global handed to a pointer-receiver method (sync.Map, mutex-guarded caches …)
-						if a := x.Common().Args; len(a) > 0 && !x.Common().IsInvoke() {
-							if g, ok := a[0].(*ssa.Global); ok && x.Common().Signature().Recv() != nil {
-								written[g] = FnName(f) + " via " + shortCallee(x)
-							}
-						}
-					}
-				})
-			}
+			written := runtimeWrittenGlobals(r.W)
 			for _, name := range []string{"RecoverSignature", "RecoverPublicKey"} {
 				root := r.W.Fn("pkg/bls", name)
 				if root == nil {
